@@ -341,3 +341,63 @@ def source_calls(fn, op, pass_through=PASS_THROUGH):
             if isinstance(rv.get("place"), dict):
                 work.append(rv["place"]["l"])
     return out
+
+
+def captures_used(fn, op, pass_through=PASS_THROUGH + ("::get", "::index", "::iter", "::next", "::unwrap_or", "::branch")):
+    """indices of the captured variables (fields of the closure environment, local 1) the value of `op` is read from, along its
+    definition chain (copies, references, field reads, pass-through calls and lookups)"""
+    calls_by_dest = {}
+    for b, t in fn.calls():
+        calls_by_dest.setdefault(t["dest"]["l"], []).append(t)
+    assigns_by_local = {}
+    for b, j, pl, rv, meta in fn.assigns():
+        assigns_by_local.setdefault(pl["l"], []).append(rv)
+    out, seen, work = set(), set(), []
+    p0 = op_place(op) if not ("l" in op and "p" in op) else op
+    if p0 is None:
+        return out
+    work.append(p0)
+    while work:
+        pl = work.pop()
+        if pl["l"] == 1:
+            for e in pl["p"]:
+                if isinstance(e, dict) and "f" in e:
+                    out.add(int(e["f"]) if str(e["f"]).isdigit() else e["f"])
+                    break
+            continue
+        if pl["l"] in seen:
+            continue
+        seen.add(pl["l"])
+        for t in calls_by_dest.get(pl["l"], ()):
+            c = callee(t)
+            if any(c.endswith(s) or (s + "<") in c for s in pass_through):
+                for a in t["args"]:
+                    ap = op_place(a)
+                    if ap is not None:
+                        work.append(ap)
+        for rv in assigns_by_local.get(pl["l"], ()):
+            for o_ in rv.get("ops", ()):
+                ap = op_place(o_)
+                if ap is not None:
+                    work.append(ap)
+            if isinstance(rv.get("place"), dict):
+                work.append(rv["place"])
+    return out
+
+
+def capture_operands(F, cfn):
+    """(parent Fn, block, [operand per captured variable]) of the place where the closure `cfn` is built, or None"""
+    name = cfn.name
+    i = name.rfind("::{closure")
+    if i < 0:
+        return None
+    parent = name[:i]
+    cands = [parent] + [n for n in F.fns if n.startswith(parent + "::{closure") and n != name]
+    for pn in cands:
+        pf = F.fns.get(pn)
+        if pf is None:
+            continue
+        for b, j, pl, rv, m in pf.assigns():
+            if rv["k"] == "agg" and rv.get("adt") == "{closure}" and rv.get("closure") == name:
+                return pf, b, rv["ops"]
+    return None
